@@ -2668,6 +2668,16 @@ impl From<Term> for NickelValue {
     }
 }
 
+#[cfg(feature = "verif-hooks")]
+impl NickelValue {
+    /// H7 (verification hook): the reference count stored in the header of the value block
+    /// `self` points to, or `None` if `self` is an inline value.
+    pub fn verif_ref_count(&self) -> Option<u64> {
+        // Safety: `self.tag()` is `Pointer`, hence `self.data` points to a live value block.
+        (self.tag() == ValueTag::Pointer).then(|| unsafe { self.header().ref_count() })
+    }
+}
+
 #[cfg(test)]
 mod tests {
     use super::*;
